@@ -63,11 +63,13 @@ _HULL_PASSES = 'cgscc(inline),function(sroa,early-cse,instcombine,dce)'
 for _tag, _n, _mode, _xb, _swap, _tiers in (
         ('4p', 4, 1, 0, 0, ('quick', 'thorough')), ('4pt', 4, 1, 0, 1, ('thorough',)),
         ('4t', 4, 2, 4, 0, ('thorough',)), ('4tt', 4, 2, 3, 1, ('thorough',)),
-        ('5p', 5, 1, 0, 0, ('thorough',)), ('5pt', 5, 1, 0, 1, ('thorough',))):
+        ) + tuple(('5p%d' % _l0, 5, 1, 0, 0, ('thorough',)) for _l0 in range(5)):
     _fam = ('any permutation of 0..%d' % (_n - 1)) if _mode == 1 else ('any tuple over 0..%d (ties included)' % (_xb - 1))
+    if _tag.startswith('5p'):
+        _fam += ' whose first value is %s' % _tag[2:]
     K('C20.f.' + _tag, property='C20', engine='symex', harness='C20/hull.cpp', entry='k_hull',
       tus=['src/Polygon/Polygons.cpp', 'src/Basic/AStringable.cpp', 'src/Basic/Utilities.cpp'],
-      defines={'all': {'VF_N': _n, 'VF_G': 1048576, 'VF_XMODE': _mode, 'VF_XB': max(_xb, 1), 'VF_SWAP': _swap}}, tiers=_tiers,
+      defines={'all': dict({'VF_N': _n, 'VF_G': 1048576, 'VF_XMODE': _mode, 'VF_XB': max(_xb, 1), 'VF_SWAP': _swap}, **({'VF_L0': _tag[2:]} if _tag.startswith('5p') else {}))}, tiers=_tiers,
       symex={'no_merge': True, 'max_steps': 6000000 if 'quick' in _tiers else 200000000}, passes=_HULL_PASSES,
       bounds={'quick': 'exactly %d points in general position (no three collinear); %s: %s; the other coordinate of every point: arbitrary integer |v| <= 2^20'
                        % (_n, 'ordinates' if _swap else 'abscissae', _fam)},
